@@ -2,6 +2,63 @@
    when the model was last validated against the code). Compared with the regenerated VGen.SkelC05 in VProps/PinC05.lean. -/
 namespace VPins.C05
 
+def eventV1_eventV1_Redact : List String := [
+  "func func()",
+  "if e.redacted {",
+  "return",
+  "}",
+  "verImpl, err := GetRoomVersion(e.roomVersion)",
+  "if err != nil {",
+  "panic(fmt.Errorf(\"gomatrixserverlib: invalid event %v\", err))",
+  "}",
+  "eventJSON, err := verImpl.RedactEventJSON(e.eventJSON)",
+  "if err != nil {",
+  "panic(fmt.Errorf(\"gomatrixserverlib: invalid event %v\", err))",
+  "}",
+  "if eventJSON, err = EnforcedCanonicalJSON(eventJSON, e.roomVersion); err != nil {",
+  "panic(fmt.Errorf(\"gomatrixserverlib: invalid event %v\", err))",
+  "}",
+  "var res eventV1",
+  "err = json.Unmarshal(eventJSON, &res)",
+  "if err != nil {",
+  "panic(fmt.Errorf(\"gomatrixserverlib: populateFieldsFromJSON failed %v\", err))",
+  "}",
+  "res.redacted = true",
+  "res.roomVersion = e.roomVersion",
+  "res.eventJSON = eventJSON",
+  "*e = res"
+]
+
+def eventV2_eventV2_Redact : List String := [
+  "func func()",
+  "if e.redacted {",
+  "return",
+  "}",
+  "verImpl, err := GetRoomVersion(e.roomVersion)",
+  "if err != nil {",
+  "panic(fmt.Errorf(\"gomatrixserverlib: invalid event %v\", err))",
+  "}",
+  "eventJSON, err := verImpl.RedactEventJSON(e.eventJSON)",
+  "if err != nil {",
+  "panic(fmt.Errorf(\"gomatrixserverlib: invalid event %v\", err))",
+  "}",
+  "if eventJSON, err = EnforcedCanonicalJSON(eventJSON, e.roomVersion); err != nil {",
+  "panic(fmt.Errorf(\"gomatrixserverlib: invalid event %v\", err))",
+  "}",
+  "var res eventV2",
+  "err = json.Unmarshal(eventJSON, &res)",
+  "if err != nil {",
+  "panic(fmt.Errorf(\"gomatrixserverlib: Redact failed %v\", err))",
+  "}",
+  "res.redacted = true",
+  "res.eventJSON = eventJSON",
+  "res.roomVersion = e.roomVersion",
+  "if res.EventIDRaw == \"\" {",
+  "res.EventIDRaw = e.EventIDRaw",
+  "}",
+  "*e = res"
+]
+
 def redactevent__redactEventJSON : List String := [
   "func func[T unredactableEvent](eventJSON []byte, unredactableEvent T, eventTypeToKeepContentFields map[string][]string) ([]byte, error)",
   "if err := json.Unmarshal(eventJSON, unredactableEvent); err != nil {",
@@ -78,6 +135,6 @@ def redactevent_unredactableEventFieldsV2_SetContent : List String := [
   "u.Content = content"
 ]
 
-def functions : List String := ["redactevent.go:.redactEventJSON", "redactevent.go:.redactEventJSONV1", "redactevent.go:.redactEventJSONV2", "redactevent.go:.redactEventJSONV3", "redactevent.go:.redactEventJSONV4", "redactevent.go:.redactEventJSONV5", "redactevent.go:unredactableEventFieldsV1.GetContent", "redactevent.go:unredactableEventFieldsV1.GetType", "redactevent.go:unredactableEventFieldsV1.SetContent", "redactevent.go:unredactableEventFieldsV2.GetContent", "redactevent.go:unredactableEventFieldsV2.GetType", "redactevent.go:unredactableEventFieldsV2.SetContent"]
+def functions : List String := ["eventV1.go:eventV1.Redact", "eventV2.go:eventV2.Redact", "redactevent.go:.redactEventJSON", "redactevent.go:.redactEventJSONV1", "redactevent.go:.redactEventJSONV2", "redactevent.go:.redactEventJSONV3", "redactevent.go:.redactEventJSONV4", "redactevent.go:.redactEventJSONV5", "redactevent.go:unredactableEventFieldsV1.GetContent", "redactevent.go:unredactableEventFieldsV1.GetType", "redactevent.go:unredactableEventFieldsV1.SetContent", "redactevent.go:unredactableEventFieldsV2.GetContent", "redactevent.go:unredactableEventFieldsV2.GetType", "redactevent.go:unredactableEventFieldsV2.SetContent"]
 
 end VPins.C05
